@@ -344,7 +344,12 @@ def run_case(case, ctx):
         try:
             res, err = dea3(*es)
             res_then, err_then = res.copy(), err.copy()
-            res_s, err_s = dea3(*es, symmetric=True)
+            # (the flag as a keyword or, as its position in the documented signature dea3(v0, v1, v2, symmetric) allows, positionally)
+            if case['seed'] % 2:
+                res_s, err_s = dea3(es[0], es[1], es[2], True)
+                ctx.count('symmetric_flag_given_positionally')
+            else:
+                res_s, err_s = dea3(*es, symmetric=True)
             dea3(*[v * 1.5 + 0.25 for v in es])
             if res.tobytes() != res_then.tobytes() or err.tobytes() != err_then.tobytes():
                 ctx.reject('returned_arrays_changed_by_a_later_call', detail=dict(shape=list(shape)))
